@@ -111,6 +111,8 @@ structure CFile where
 structure MonCfg where
   jobs : Nat               -- 0 = serial mode (no per-file databases, no bound to check)
   keep : Bool              -- --keep-db-on-failure
+  refused : Bool           -- some file failed with "Connection refused": the CLI assumes the server
+                           -- is down and skips dropping the databases
   mgmtDb : Str             -- database of the management / serial sessions (`--db`)
   files : List CFile
 
@@ -218,7 +220,8 @@ def monFinish (cfg : MonCfg) (st : MonState) : Option Violation :=
   | [] =>
     let check (db : Str) : Option Violation :=
       let kept := cfg.keep && ((fileOfDb cfg db).map (·.failed)).getD false
-      if kept then (if st.dropped.contains db then some (.droppedThoughKept db) else none)
+      if cfg.refused then none
+      else if kept then (if st.dropped.contains db then some (.droppedThoughKept db) else none)
       else (if st.dropped.contains db then none else some (.notDropped db))
     st.created.findSome? check
 
@@ -273,8 +276,152 @@ def checkReport (exitCode : Nat) (cancelCause : Bool) (junitCases : Nat) (rs : L
     if junitCases ≠ rs.length then some (.junitCount junitCases)
     else
       let allOk := rs.all (fun r => r.tag = some .ok)
-      if allOk ∧ exitCode ≠ 0 then some .exitNonZero
+      -- a Ctrl-C that arrives after the last file finished still makes the run exit non-zero (C19)
+      if allOk ∧ exitCode ≠ 0 ∧ !cancelCause then some .exitNonZero
       else if !allOk ∧ exitCode = 0 then some .exitZero
       else none
+
+end Slt
+
+namespace Slt
+
+/-! ### the parallel driver as a labelled transition system
+
+`run_parallel` (main.rs 382-523) + `connect_and_run_test_file` (669-736): databases are created
+up front, at most `jobs` files are in flight (`buffer_unordered`), a file opens sessions lazily
+(one per connection name), `runner.shutdown` closes them on every exit path, a failure under
+fail-fast / a refused connection / Ctrl-C sets the cancellation flag, a file started after that
+is skipped without a session (it first waits for the running ones), databases are dropped at the
+end unless kept. Nondeterminism (which file finishes next, what it sends, when the signal arrives)
+is in the choice of labels. -/
+
+structure DFile where
+  path : Str
+  db : Str
+  deriving DecidableEq, Repr
+
+inductive DrvPhase | creating | running | dropping | finished
+  deriving DecidableEq, Repr
+
+structure DSt where
+  phase : DrvPhase := .creating
+  toCreate : List Str                      -- databases still to be created, in order
+  pending : List Nat                       -- indices of files not yet started, in order
+  inflight : List (Nat × List Nat) := []   -- started files with their open sessions
+  results : List (Nat × FileResult) := []
+  cancelled : Bool := false
+  refused : Bool := false
+  toDrop : List Str := []
+  nextSess : Nat := 0
+  log : List CEv := []
+
+structure DCfg where
+  jobs : Nat
+  keep : Bool
+  failFast : Bool
+  files : List DFile
+
+inductive DLabel
+  | create                                  -- next `CREATE DATABASE`
+  | beginRun                                -- all databases exist: start polling the stream
+  | start                                   -- the next pending file is started (or skipped)
+  | openSession (i : Nat)                   -- file i opens a session (first use of a connection name)
+  | sql (i : Nat) (s : Nat) (text : Str)    -- file i sends `text` (one of its own lines) on session s
+  | finish (i : Nat) (res : FileResult) (refused : Bool)   -- file i ends: sessions closed, result processed
+  | signal                                  -- Ctrl-C
+  | beginDrop
+  | drop                                    -- next `DROP DATABASE` (kept ones are skipped)
+  | done
+
+def DCfg.fileAt (c : DCfg) (i : Nat) : Option DFile := c.files[i]?
+
+def sessionsOf (l : List (Nat × List Nat)) (i : Nat) : Option (List Nat) :=
+  match l with
+  | [] => none
+  | (k, ss) :: rest => if k = i then some ss else sessionsOf rest i
+
+def setSessions (l : List (Nat × List Nat)) (i : Nat) (ss : List Nat) : List (Nat × List Nat) :=
+  l.map (fun p => if p.1 = i then (i, ss) else p)
+
+/-- the databases to drop at the end: all of them, except those of failed files under `keep` -/
+def dropList (c : DCfg) (results : List (Nat × FileResult)) : List Str :=
+  (c.files.zipIdx.filter (fun p =>
+    !(c.keep && results.any (fun r => r.1 = p.2 && r.2 = FileResult.err)))).map (·.1.db)
+
+def dstep (c : DCfg) (s : DSt) : DLabel → Option DSt
+  | .create =>
+    match s.phase, s.toCreate with
+    | .creating, db :: rest => some { s with toCreate := rest, log := s.log ++ [.create db] }
+    | _, _ => none
+  | .beginRun =>
+    if s.phase = .creating ∧ s.toCreate = [] then some { s with phase := .running } else none
+  | .start =>
+    match s.phase, s.pending with
+    | .running, i :: rest =>
+      if s.cancelled then
+        -- skipped; waits until no test is running (`RUNNING_TESTS.write()`)
+        if s.inflight = [] then some { s with pending := rest, results := s.results ++ [(i, .skipped)] }
+        else none
+      else if s.inflight.length < c.jobs then
+        some { s with pending := rest, inflight := s.inflight ++ [(i, [])] }
+      else none
+    | _, _ => none
+  | .openSession i =>
+    match s.phase, sessionsOf s.inflight i, c.fileAt i with
+    | .running, some ss, some f =>
+      if s.cancelled then none      -- `select!` is biased towards the cancellation branch
+      else some { s with inflight := setSessions s.inflight i (ss ++ [s.nextSess]),
+                         nextSess := s.nextSess + 1,
+                         log := s.log ++ [.connect s.nextSess f.db] }
+    | _, _, _ => none
+  | .sql i k text =>
+    match s.phase, sessionsOf s.inflight i, c.fileAt i with
+    | .running, some ss, some f =>
+      if s.cancelled ∨ !ss.contains k ∨ sqlOwner text ≠ some f.path then none
+      else if (kw "dbname ").isPrefixOf text ∧ !((kw "dbname " ++ f.db ++ kw " -- F").isPrefixOf text) then none
+      else some { s with log := s.log ++ [.sql k text] }
+    | _, _, _ => none
+  | .finish i res refused =>
+    match s.phase, sessionsOf s.inflight i with
+    | .running, some ss =>
+      -- a cancelled result only under cancellation; skipped results come from `start`
+      if res = .skipped ∨ (res = .cancelled ∧ !s.cancelled) ∨ (refused ∧ res ≠ .err) then none
+      else
+        let cancel := s.cancelled || (res == .err && (c.failFast || refused))
+        some { s with inflight := s.inflight.filter (fun p => p.1 ≠ i),
+                      results := s.results ++ [(i, res)],
+                      cancelled := cancel,
+                      refused := s.refused || refused,
+                      log := s.log ++ ss.map CEv.eof }
+    | _, _ => none
+  | .signal =>
+    if s.phase = .running ∧ !s.cancelled then some { s with cancelled := true, log := s.log ++ [.cancel] }
+    else none
+  | .beginDrop =>
+    if s.phase = .running ∧ s.pending = [] ∧ s.inflight = [] then
+      some { s with phase := .dropping, toDrop := if s.refused then [] else dropList c s.results }
+    else none
+  | .drop =>
+    match s.phase, s.toDrop with
+    | .dropping, db :: rest => some { s with toDrop := rest, log := s.log ++ [.drop db] }
+    | _, _ => none
+  | .done =>
+    if s.phase = .dropping ∧ s.toDrop = [] then some { s with phase := .finished } else none
+
+def dinit (c : DCfg) : DSt :=
+  { toCreate := c.files.map (·.db), pending := List.range c.files.length }
+
+def drun (c : DCfg) : DSt → List DLabel → Option DSt
+  | s, [] => some s
+  | s, l :: ls =>
+    match dstep c s l with
+    | none => none
+    | some s' => drun c s' ls
+
+/-- the monitor configuration that corresponds to a driver run -/
+def monCfgOf (c : DCfg) (mgmt : Str) (s : DSt) : MonCfg :=
+  { jobs := c.jobs, keep := c.keep, refused := s.refused, mgmtDb := mgmt
+    files := c.files.zipIdx.map (fun p =>
+      { path := p.1.path, failed := s.results.any (fun r => r.1 = p.2 && r.2 = FileResult.err) }) }
 
 end Slt
